@@ -43,6 +43,11 @@ def run(prog, rep):
     C02.lazy_phases(prog, rep)
     C08.lazy_routing(prog, rep)
     C04.memo_rule(prog, rep)
+    C04.strict_scoped_writes(prog, rep)
+    C02.regex_capture_lookup(prog, rep)
+    from ..engines import e5_writers as e5
+    rep.rule("E5.var", "VariableMap::add refuses every second definition; VariableMap::set writes mutable bindings only")
+    e5.variable_map_shape(prog, rep, "E5.var")
     rep.rule("E2.d", "the result of every fallible call in the interpreter, graph, variables and functions modules is propagated, returned, "
                      "matched with an error-returning Err arm, or is a listed intentional absorption")
     files = ("src/execution/strict.rs", "src/execution.rs", "src/graph.rs", "src/variables.rs", "src/functions.rs", "src/execution/lazy.rs",
